@@ -207,4 +207,5 @@ func genHostileWidths(t *rapid.T, c *Case, m *model) {
 	for i := range c.Widths {
 		c.Widths[i] = one()
 	}
+	alternateWidths(t, c, m, m.cum[m.n].Ceil()+3)
 }
